@@ -18,8 +18,8 @@ P("C43",
   level_note="Trusted: Coq kernel + vm_compute; the hand-written models of encoding/json (Lib/Json.v) and of validate.go "
              "(C43/Model.v), both tied on every run: each generated type goes through the real ValidateSpec/ValidateState and 2-3 "
              "random values of it through the real json.Marshal/Unmarshal, compared exactly with the model's verdict and "
-             "round-trip result; the reflect.Type -> descriptor translator (harness/internal/jm). Not modelled: ,string / "
-             "omitzero options (flagged, excluded from plain), case-insensitive key matching and duplicate object keys on "
+             "round-trip result; the reflect.Type -> descriptor translator (harness/internal/jm). Not modelled: the ,string "
+             "option (flagged, excluded from plain; omitzero IS modelled), case-insensitive key matching and duplicate object keys on "
              "decode (never produced by the encoder), float text (opaque tokens), recursive types (the real validator does not "
              "terminate on them; not generated).",
   assumptions=["a Go value is represented by its tree of field values; slices/maps distinguish nil from empty; map values are "
